@@ -19,7 +19,9 @@ RULE = ('(i) arbitrary byte strings (Hypothesis binary, boundary-biased) written
         'RESUME_OK, REQUEST_N 0, PAYLOAD / CANCEL / REQUEST_N on stream 0, LEASE to a non-leasing endpoint, KEEPALIVE on '
         'a stream, continuation without a start, continuation of a different type, request on a live id, unknown error '
         'code, ignore-flag frames of unknown type, METADATA_PUSH on a stream, wrong id parity) interleaved with healthy '
-        'interactions and followed by a probe request-response on a fresh id; (iii) the complete matrix of application '
+        'interactions and followed by a probe request-response on a fresh id; the same hostile messages are also played by '
+        'hand to a real server / client that sits on one of the repository\'s websocket transports (stand-in websocket '
+        'object), followed by a probe in each direction; (iii) the complete matrix of application '
         'faults: every RequestHandler entry point raising, returned future failing, a generator factory failing before there is a generator, publisher raising in subscribe / '
         'request, generator / async generator / observable failing at element k, subscriber callbacks raising, on_setup '
         'raising - x requester side x framing x fragmentation - each beside a healthy bystander stream and followed by a '
@@ -434,6 +436,142 @@ def fuzz_oracle(data):
 info = {}
 
 
+# ---------------------------------------------------------- (ii') the same hostile frames through the real websocket glue
+
+@st.composite
+def glue_cases(draw):
+    from harness import glue_e2e as G
+    real = draw(st.sampled_from(['s', 's', 'c']))
+    kind = draw(st.sampled_from(G.SERVER_GLUES if real == 's' else G.CLIENT_GLUES))
+    hostile = draw(st.lists(hostile_frames('c' if real == 's' else 's'), min_size=1, max_size=8))
+    bodies = []
+    for hops, _sids in hostile:
+        for o in hops:
+            if o[0] == 'rawframe':
+                bodies.append(refcodec.encode(o[1]))
+            elif o[0] == 'rawbody':
+                bodies.append(bytes(o[1]))
+    return {'glue_hostile': True, 'real': real, 'kind': kind, 'bodies': bodies, 'spaced': draw(st.booleans())}
+
+
+async def _glue_hostile(loop, case):
+    """A real endpoint on a real websocket transport (stand-in websocket); the harness plays the peer by hand: handshake,
+    the hostile messages, then a probe request-response in the direction the real endpoint answers, and one it issues."""
+    import asyncio
+    from harness import glue_e2e as G
+    from rsocket.helpers import create_future, single_transport_provider
+    from rsocket.payload import Payload
+    from rsocket.request_handler import BaseRequestHandler
+    from rsocket.rsocket_client import RSocketClient
+    from rsocket.rsocket_server import RSocketServer
+
+    class Handler(BaseRequestHandler):
+        async def request_response(self, payload):
+            return create_future(Payload(b'pong:' + bytes(payload.data or b''), None))
+
+    tasks = []
+    real = case['real']
+    mine, theirs = G.pair('raw', case['kind']) if real == 's' else G.pair(case['kind'], 'raw')
+    if real == 'c':
+        mine, theirs = theirs, mine  # `mine` is always the harness end, `theirs` the real endpoint's
+    got = []
+
+    def drain():
+        while not mine.inbox.empty():
+            item = mine.inbox.get_nowait()
+            if isinstance(item, (bytes, bytearray)):
+                got.append(refcodec.decode(bytes(item)))
+
+    async def say(body):
+        theirs.inbox.put_nowait(theirs.wrap(bytes(body)))
+        for _ in range(3 if case['spaced'] else 0):
+            await asyncio.sleep(0)
+
+    if real == 's':
+        sock = RSocketServer(G.server_transport(case['kind'], theirs, tasks), handler_factory=Handler)
+        await say(refcodec.encode({'type': 'SETUP', 'sid': 0, 'keepalive': 100000, 'lifetime': 1000000, 'metadata_mime': b'a/b',
+                                   'data_mime': b'c/d', 'metadata': None, 'data': b''}))
+        parity = 1
+    else:
+        sock = RSocketClient(single_transport_provider(G.client_transport(case['kind'], theirs, tasks)), handler_factory=Handler)
+        await sock.connect()
+        parity = 0
+    for _ in range(6):
+        await asyncio.sleep(0)
+    for b in case['bodies']:
+        await say(b)
+    for _ in range(10):
+        await asyncio.sleep(0)
+    drain()
+    before = len(got)
+    probe_sid = 4001 if parity else 4002
+    await say(refcodec.encode({'type': 'REQUEST_RESPONSE', 'sid': probe_sid, 'data': b'probe', 'metadata': None}))
+    for _ in range(12):
+        await asyncio.sleep(0)
+    drain()
+    answers = [f for f in got[before:] if f.get('sid') == probe_sid]
+    # and a request the real endpoint issues itself, answered by hand
+    fut = sock.request_response(Payload(b'out', None))
+    for _ in range(8):
+        await asyncio.sleep(0)
+    drain()
+    reqs = [f for f in got if f['type'] == 'REQUEST_RESPONSE' and bytes(f.get('data') or b'') == b'out']
+    outcome = None
+    if reqs:
+        await say(refcodec.encode({'type': 'PAYLOAD', 'sid': reqs[-1]['sid'], 'next': True, 'complete': True, 'data': b'answer',
+                                   'metadata': None}))
+        try:
+            r = await asyncio.wait_for(fut, 5.0)
+            outcome = bytes(r.data or b'')
+        except Exception as e:
+            outcome = 'raised:%s' % type(e).__name__
+    res = {'answers': [[f['type'], bytes(f.get('data') or b'')] for f in answers], 'issued': len(reqs), 'outcome': outcome,
+           'receiver_done': sock._receiver_task.done() if getattr(sock, '_receiver_task', None) is not None else None,
+           'sender_done': sock._sender_task.done() if getattr(sock, '_sender_task', None) is not None else None,
+           'loop_errors': [dict(e) for e in getattr(loop, 'errors', [])]}
+    try:
+        await asyncio.wait_for(sock.close(), 5.0)
+    except Exception:
+        pass
+    for t in tasks:
+        t.cancel()
+    return res
+
+
+def glue_prop(case):
+    from harness import vloop
+    from harness.programs import _case_alarm
+    out = []
+    facts = dict(real=case['real'], transport=case['kind'], messages=len(case['bodies']))
+    old = signal.signal(signal.SIGALRM, _case_alarm)
+    signal.alarm(20 if not _stuck else 3)
+    try:
+        res = vloop.run_case(_glue_hostile, case)
+    except common.CaseTimeout:
+        _stuck.append(1)
+        return [viol('processing_does_not_terminate', 'C12:glue:stuck:' + case['kind'], **facts)]
+    except Exception as e:
+        is_repo, sig = common.repo_exception_sig(e)
+        if not is_repo:
+            raise
+        return [viol('exception_escaped', 'C12:glue:raised:%s:%s' % (case['kind'], type(e).__name__), exc=repr(e)[:200], **facts)]
+    finally:
+        signal.alarm(0)
+        signal.signal(signal.SIGALRM, old)
+    if res['receiver_done'] or res['sender_done']:
+        out.append(viol('endpoint_task_died', 'C12:glue:task_died:%s' % ('receiver' if res['receiver_done'] else 'sender'), **facts))
+    if res['answers'] != [['PAYLOAD', b'pong:probe']]:
+        out.append(viol('probe_not_answered', 'C12:glue:probe_not_answered:incoming', got=res['answers'][:3], **facts))
+    if res['issued'] != 1 or res['outcome'] != b'answer':
+        out.append(viol('probe_not_answered', 'C12:glue:probe_not_answered:outgoing', issued=res['issued'],
+                        outcome=res['outcome'] if not isinstance(res['outcome'], bytes) else res['outcome'].hex(), **facts))
+    for err in res['loop_errors']:
+        out.append(viol('exception_reached_loop_handler', 'C12:glue:loop_error:%s' % err.get('type'), **facts))
+    info['nt'] = True
+    info['classes'] = ['part=glue', 'real=' + case['real'], 'transport=' + case['kind']]
+    return out
+
+
 def prop_hostile(program):
     vs, tr = judge_hostile(program)
     info['nt'] = True
@@ -483,7 +621,9 @@ def hyp_shard(tier, seed, n, part):
     common.use_repo()
     stats = common.Stats()
     known = common.Known(PID)
-    if part == 'frames':
+    if part == 'glue':
+        common.hyp_search(stats, known, glue_cases(), glue_prop, n, seed, classify=classify, shrink=True)
+    elif part == 'frames':
         common.hyp_search(stats, known, hostile_programs(), prop_hostile, n, seed, classify=classify, shrink=True)
     else:
         common.hyp_search(stats, known, byte_programs(), prop_bytes, n, seed, classify=classify, shrink=True)
@@ -497,6 +637,9 @@ def run(tier, seed):
     jobs = [('matrix_shard', dict(tier=tier, seed=seed, part=i, parts=4)) for i in range(4)]
     for i, s in enumerate(seeds):
         jobs.append(('hyp_shard', dict(tier=tier, seed=s, n=total // 12, part='frames' if i % 3 else 'bytes')))
+    nglue = 480 if tier == 'quick' else 16000
+    for s in common.shard_seeds(seed, 4):
+        jobs.append(('hyp_shard', dict(tier=tier, seed=s + 91, n=nglue // 4, part='glue')))
     stats = common.run_shards_multi(__name__, jobs)
     if tier == 'thorough':
         from harness import fuzz
@@ -507,6 +650,8 @@ def run(tier, seed):
 def replay(path):
     common.use_repo()
     case = common.load_replay(path)
+    if case.get('glue_hostile'):
+        return common.report_replay(PID, path, glue_prop(case))
     if 'fuzz_input' in case:
         return common.report_replay(PID, path, fuzz_oracle(case['fuzz_input']))
     if 'fault' in case:
